@@ -12,6 +12,7 @@ require (
 	github.com/godaddy/asherah/go/appencryption v0.7.1
 	github.com/godaddy/asherah/go/securememory v0.1.6
 	github.com/godaddy/asherah/server/go v0.0.0
+	github.com/jessevdk/go-flags v1.6.1
 	google.golang.org/grpc v1.71.1
 	pgregory.net/rapid v1.3.0
 	verifhook v0.0.0
